@@ -559,3 +559,83 @@ def _c18():
 
 
 _c18()
+
+
+# ----------------------------------------------------------------------------------------------- C13
+def _c13():
+    R("c13-default-changed-in-table", C, '            "pwrs": {"typ": [int, float], "opt": True, "def": PWRS_DEFAULT},', '            "pwrs": {"typ": [int, float], "opt": True, "def": 1.0},', fires=["C13"])
+    R("c13-key-removed", C, '            "iis": {"typ": [int, float], "opt": True, "def": IIS_DEFAULT},\n            "rt": {"typ": [int, float], "opt": True, "def": RT_DEFAULT},\n        },\n    }\n\n    def __init__(\n        self,\n        name: str,\n        *,\n        vo: float,\n        eff: float | dict,', '            "rt": {"typ": [int, float], "opt": True, "def": RT_DEFAULT},\n        },\n    }\n\n    def __init__(\n        self,\n        name: str,\n        *,\n        vo: float,\n        eff: float | dict,', fires=["C13"])
+    R("c13-mandatory-made-optional", C, '            "rs": {"typ": [int, float], "opt": False},\n            "rt": {"typ": [int, float], "opt": True, "def": RT_DEFAULT},\n        },\n    }\n\n    def __init__(\n        self,\n        name: str,\n        *,\n        rs: float,\n        rt: float = 0.0,\n        limits: dict = LIMITS_DEFAULT,\n    ):', '            "rs": {"typ": [int, float], "opt": True, "def": RS_DEFAULT},\n            "rt": {"typ": [int, float], "opt": True, "def": RT_DEFAULT},\n        },\n    }\n\n    def __init__(\n        self,\n        name: str,\n        *,\n        rs: float,\n        rt: float = 0.0,\n        limits: dict = LIMITS_DEFAULT,\n    ):', fires=["C13"])
+    R("c13-vloss-table-rejects-dict", C, '            "vdrop": {"typ": [int, float, dict], "opt": False},\n            "rt": {"typ": [int, float], "opt": True, "def": RT_DEFAULT},\n        },\n    }\n\n    def __init__(\n        self,\n        name: str,\n        *,\n        vdrop: float | dict,\n        rt', '            "vdrop": {"typ": [int, float], "opt": False},\n            "rt": {"typ": [int, float], "opt": True, "def": RT_DEFAULT},\n        },\n    }\n\n    def __init__(\n        self,\n        name: str,\n        *,\n        vdrop: float | dict,\n        rt', fires=["C13"])
+    R("c13-iload-inherits-pload-table", C, '''    _cparams = {
+        "name": "iload",
+        "params": {
+            "ii": {"typ": [int, float], "opt": False},
+            "iis": {"typ": [int, float], "opt": True, "def": IIS_DEFAULT},
+            "rt": {"typ": [int, float], "opt": True, "def": RT_DEFAULT},
+            "loss": {"typ": [bool], "opt": True, "def": False},
+        },
+    }
+
+''', '', fires=["C13"])
+    R("c13-type-gate-after-store", C, '''            if type(pval) not in cls._cparams["params"][key]["typ"]:
+                raise ValueError("Parameter {} is not of the correct type".format(key))
+            fparams[key] = pval''', '''            fparams[key] = pval
+            if type(pval) not in cls._cparams["params"][key]["typ"]:
+                raise ValueError("Parameter {} is not of the correct type".format(key))''', fires=["C13"])
+    R("c13-type-gate-isinstance", C, '            if type(pval) not in cls._cparams["params"][key]["typ"]:', '            if not isinstance(pval, tuple(cls._cparams["params"][key]["typ"])):', fires=["C13"])
+    R("c13-mandatory-read-with-default", C, '                pval = _get_mand(config[cls._cparams["name"]], key)', '                pval = _get_opt(config[cls._cparams["name"]], key, None)', fires=["C13"])
+    R("c13-linreg-vdrop-default", C, '        vd = _get_opt(config["linreg"], "vdrop", VDROP_DEFAULT)', '        vd = _get_opt(config["linreg"], "vdrop", 0.1)', fires=["C13"])
+    R("c13-linreg-iis-from-iq", C, '        iis = _get_opt(config["linreg"], "iis", IIS_DEFAULT)', '        iis = _get_opt(config["linreg"], "iq", IIS_DEFAULT)', fires=["C13"])
+    R("c13-loader-updates-shared-limits", C, '        fparams["limits"] = _get_opt(config, "limits", LIMITS_DEFAULT)', '        limits = LIMITS_DEFAULT\n        limits.update(_get_opt(config, "limits", {}))\n        fparams["limits"] = limits', fires=["C13"])
+    R("c13-section-name-duplicate", C, '        "name": "vloss",', '        "name": "rloss",', fires=["C13"])
+
+
+_c13()
+
+
+# ----------------------------------------------------------------------------------------------- C12
+def _c12():
+    R("c12-converter-iis-dropped", S, '''                                    iq=iq,
+                                    limits=limits,
+                                    iis=iis,
+                                    rt=rt,
+                                ),
+                            )
+                        elif c["type"] == "LINREG":''', '''                                    iq=iq,
+                                    limits=limits,
+                                    rt=rt,
+                                ),
+                            )
+                        elif c["type"] == "LINREG":''', fires=["C12"])
+    R("c12-pload-pwrs-dropped", S, "                                        limits=limits,\n                                        pwrs=pwrs,\n                                        rt=rt,", "                                        limits=limits,\n                                        rt=rt,", fires=["C12"])
+    R("c12-rload-loss-dropped", S, "                                        cname, rs=rs, rt=rt, limits=limits, loss=loss", "                                        cname, rs=rs, rt=rt, limits=limits", fires=["C12"])
+    R("c12-pswitch-rs-from-iis", S, '''                                comp=PSwitch(
+                                    cname,
+                                    rs=rs,''', '''                                comp=PSwitch(
+                                    cname,
+                                    rs=iis,''', fires=["C12"])
+    R("c12-reader-default-iq-one", S, '                        iq = _get_opt(c["params"], "iq", 0.0)', '                        iq = _get_opt(c["params"], "iq", 1.0)', fires=["C12"])
+    R("c12-mux-parents-from-graph", S, '                "parents": [self._g[n]._params["name"] for n in self._parents[pidx]],', '                "parents": [self._g[n]._params["name"] for n in self._g.predecessor_indices(pidx)],', fires=["C12", "C05", "C16"])
+    R("c12-version-test-reversed", S, "        if version.parse(sysloss.__version__) < version.parse(ver):", "        if version.parse(sysloss.__version__) > version.parse(ver):", fires=["C12"])
+    R("c12-version-major-minor-only", S, "        if version.parse(sysloss.__version__) < version.parse(ver):", "        if version.parse(sysloss.__version__).release[:2] < version.parse(ver).release[:2]:", fires=["C12"])
+    R("c12-rails-not-saved", S, '                "groups": self._g.attrs["groups"],\n                "rails": self._g.attrs["rails"],', '                "groups": self._g.attrs["groups"],', fires=["C12"])
+    R("c12-groups-saved-from-rails", S, '                "groups": self._g.attrs["groups"],', '                "groups": self._g.attrs["rails"],', fires=["C12"])
+    R("c12-applims-sorted", S, "            limits[lim] = _get_opt(self._g[idx]._limits, lim, LIMITS_DEFAULT[lim])", "            limits[lim] = sorted(_get_opt(self._g[idx]._limits, lim, LIMITS_DEFAULT[lim]))", fires=["C12"])
+    R("c12-phase-conf-filtered-on-load", S, '        phase_conf = _get_mand(sysparams, "phase_conf")\n', '        phase_conf = _get_mand(sysparams, "phase_conf")\n        phase_conf = {k: c for k, c in phase_conf.items() if self._get_index(k) != -1}\n', fires=["C12"])
+    R("c12-record-limits-of-parent", S, '''                                    "type": self._g[c]._component_type.name,
+                                    "params": self._g[c]._params,
+                                    "limits": self._get_applims(c),
+                                }
+                            ]
+                    cdict[self._g[e]._params["name"]] = childs
+            sys[root[r]]''', '''                                    "type": self._g[c]._component_type.name,
+                                    "params": self._g[c]._params,
+                                    "limits": self._get_applims(e),
+                                }
+                            ]
+                    cdict[self._g[e]._params["name"]] = childs
+            sys[root[r]]''', fires=["C12"])
+
+
+_c12()
